@@ -263,53 +263,57 @@ Lemma inv_call_clone nr mutc c0 m sp rest :
                   (cont (get (st m ++ [mkCell (cont (get (st m) 0)) false]) (length (st m)))) :: elog m)).
 Proof.
   intros I T MS NH SH.
-  set (i := step_consumer sp). set (c := length (st m)).
-  set (x := mkCell (cont (get (st m) 0)) false). set (s' := st m ++ [x]).
   assert (P0 : cont (get (st m) 0) = c0) by (apply (i_pristine _ _ _ _ I); rewrite T; discriminate).
   assert (INT : In sp (todo m)) by (rewrite T; now left).
-  assert (FR : ~ In i (map fst (hs m))) by (apply (i_fresh _ _ _ _ I sp INT)).
-  assert (OVi : own_view i (elog m) c0 = c0) by (eapply inv_fresh_view; eauto).
+  assert (FR : ~ In (step_consumer sp) (map fst (hs m))) by (apply (i_fresh _ _ _ _ I sp INT)).
+  assert (OVi : own_view (step_consumer sp) (elog m) c0 = c0) by (eapply inv_fresh_view; eauto).
   assert (L0 : 0 < length (st m)) by (apply (i_len _ _ _ _ I)).
-  assert (GO : forall c', c' < length (st m) -> get s' c' = get (st m) c') by (intros; apply get_app_old; auto).
-  assert (GN : get s' c = x) by apply get_app_new.
-  assert (RO : is_ro s' c = false) by (unfold is_ro; now rewrite GN).
-  assert (TN : NoDup (i :: map step_consumer rest)).
+  assert (TN : NoDup (step_consumer sp :: map step_consumer rest)).
   { pose proof (i_tnodup _ _ _ _ I) as H. rewrite T in H. exact H. }
+  assert (CL : mutc (step_consumer sp) = true) by (rewrite (i_class _ _ _ _ I sp INT); auto).
+  remember (step_consumer sp) as i eqn:Hi. remember (length (st m)) as c eqn:Hc.
+  set (x := mkCell (cont (get (st m) 0)) false). set (s' := st m ++ [x]).
+  assert (GO : forall c', c' < length (st m) -> get s' c' = get (st m) c') by (intros; apply get_app_old; auto).
+  assert (GN : get s' c = x) by (subst c; apply get_app_new).
+  assert (RO : is_ro s' c = false) by (unfold is_ro; now rewrite GN).
+  assert (BD : forall j c1, In (j, c1) (hs m) -> c1 < c) by (intros j c1 H; subst c; eapply i_bound; eauto).
   rewrite RO, GN. cbn [cont x]. rewrite P0.
-  pose proof I as I0. destruct I. constructor; cbn [todo st hs elog]; auto.
+  pose proof I as I0. destruct I. constructor; cbn [todo st hs elog].
   - unfold s'. rewrite app_length. simpl. lia.
-  - intros j c1 [[= <- <-]|H]; unfold s'; rewrite app_length; simpl; [fold c; lia|].
-    apply i_bound0 in H. lia.
+  - intros j c1 [E|H]; unfold s'; rewrite app_length; simpl.
+    + inversion E; subst; lia.
+    + apply BD in H. lia.
   - simpl. constructor; auto.
   - intros sp' H. simpl. intros [E|K].
     + inversion TN as [|? ? NI _]. apply NI. rewrite E. now apply in_map.
     + apply (i_fresh0 sp'); auto. rewrite T. now right.
   - now inversion TN.
   - intros sp' H. apply i_class0. rewrite T. now right.
-  - intros j k c1 [[= <- <-]|Hj] [[= <- <-]|Hk] N; auto.
-    + apply i_bound0 in Hk. fold c in Hk. lia.
-    + apply i_bound0 in Hj. fold c in Hj. lia.
+  - intros j k c1 [Ej|Hj] [Ek|Hk] N.
+    + congruence.
+    + inversion Ej; subst c1. apply BD in Hk. lia.
+    + inversion Ek; subst c1. apply BD in Hj. lia.
     + eauto.
-  - intros j c1 [[= <- <-]|Hj] N.
-    + rewrite GN. split; auto. unfold i. rewrite i_class0; auto.
-    + rewrite GO by eauto. eauto.
-  - intros j c1 [[= <- <-]|Hj]; cbn [own_view].
-    + rewrite GN. cbn [cont x]. congruence.
-    + rewrite GO by eauto. eauto.
+  - intros j c1 [Ej|Hj] N.
+    + inversion Ej; subst j c1. rewrite GN. split; auto.
+    + rewrite GO by (apply BD in Hj; lia). eauto.
+  - intros j c1 [Ej|Hj]; cbn [own_view].
+    + inversion Ej; subst j c1. rewrite GN. cbn [cont x]. congruence.
+    + rewrite GO by (apply BD in Hj; lia). eauto.
   - intros _. rewrite GO by auto. auto.
   - left. split.
-    + intros j [[= _ E]|H]; [fold c in E; lia|]. eapply NH; eauto.
+    + intros j [E|H]; [inversion E; lia|]. eapply NH; eauto.
     + exact SH.
-  - intros j k N [[= _ E]|Hj]; [fold c in E; lia|]. exfalso. eapply NH; eauto.
-  - intros j [[= _ E]|Hj]; [fold c in E; lia|]. exfalso. eapply NH; eauto.
+  - intros j k N [E|Hj]; [inversion E; lia|]. exfalso. eapply NH; eauto.
+  - intros j [E|Hj]; [inversion E; lia|]. exfalso. eapply NH; eauto.
   - intros j w [H|H]; [discriminate|]. simpl. right. eauto.
-  - intros j c1 ro seen [[= <- <- <- <-]|H].
-    + rewrite GN. repeat split; auto.
-    + destruct (i_calls0 _ _ _ _ H) as (A & B & C). repeat split; auto.
-      rewrite GO by eauto. auto.
-  - intros j w c1 [H|H]; [discriminate|]. intros [[= <- <-]|Hj].
-    + exfalso. apply FR. eauto.
-    + rewrite GO by eauto. eauto.
+  - intros j c1 ro seen [E|H].
+    + inversion E; subst j c1 ro seen. rewrite GN. repeat split; auto. now left.
+    + destruct (i_calls0 _ _ _ _ H) as (A & B & C). repeat split; auto. { now right. }
+      rewrite GO by (apply BD in B; lia). auto.
+  - intros j w c1 [H|H]; [discriminate|]. intros [E|Hj].
+    + inversion E; subst j c1. exfalso. apply FR. eauto.
+    + rewrite GO by (apply BD in Hj; lia). eauto.
   - intros j w [H|H]; [discriminate|eauto].
 Qed.
 
@@ -330,13 +334,17 @@ Lemma inv_call_orig nr mutc c0 m sp rest (mark : bool) :
                   (cont (get (if mark then mark_ro (st m) 0 else st m) 0)) :: elog m)).
 Proof.
   intros I T MK SHR MUT SH.
-  set (i := step_consumer sp). set (s' := if mark then mark_ro (st m) 0 else st m).
-  fold s' in MUT, SH.
   assert (P0 : cont (get (st m) 0) = c0) by (apply (i_pristine _ _ _ _ I); rewrite T; discriminate).
   assert (INT : In sp (todo m)) by (rewrite T; now left).
-  assert (FR : ~ In i (map fst (hs m))) by (apply (i_fresh _ _ _ _ I sp INT)).
-  assert (OVi : own_view i (elog m) c0 = c0) by (eapply inv_fresh_view; eauto).
+  assert (FR : ~ In (step_consumer sp) (map fst (hs m))) by (apply (i_fresh _ _ _ _ I sp INT)).
+  assert (OVi : own_view (step_consumer sp) (elog m) c0 = c0) by (eapply inv_fresh_view; eauto).
   assert (L0 : 0 < length (st m)) by (apply (i_len _ _ _ _ I)).
+  assert (TN : NoDup (step_consumer sp :: map step_consumer rest)).
+  { pose proof (i_tnodup _ _ _ _ I) as H. rewrite T in H. exact H. }
+  assert (CL : mutc (step_consumer sp) = is_mut_step sp) by (apply (i_class _ _ _ _ I sp INT)).
+  remember (step_consumer sp) as i eqn:Hi.
+  set (s' := if mark then mark_ro (st m) 0 else st m).
+  fold s' in MUT, SH.
   assert (LEN : length s' = length (st m)) by (unfold s'; destruct mark; auto using length_mark_ro).
   assert (CONT : forall c', cont (get s' c') = cont (get (st m) c')).
   { intros c'. unfold s'. destruct mark; auto using cont_mark_ro. }
@@ -344,42 +352,43 @@ Proof.
   { intros c' N. unfold s'. destruct mark; auto. apply cro_mark_ro_other. auto. }
   assert (SAME : (exists j, holds m j 0) -> s' = st m).
   { intros [j Hj]. unfold s'. destruct mark; auto. exfalso. eapply MK; eauto. }
-  assert (TN : NoDup (i :: map step_consumer rest)).
-  { pose proof (i_tnodup _ _ _ _ I) as H. rewrite T in H. exact H. }
   assert (CROH : forall j c1, holds m j c1 -> cro (get s' c1) = cro (get (st m) c1)).
   { intros j c1 H. destruct (Nat.eq_dec c1 0) as [->|N]; [|auto]. rewrite SAME; eauto. }
   rewrite CONT, P0. unfold is_ro.
-  pose proof I as I0. destruct I. constructor; cbn [todo st hs elog]; auto.
+  pose proof I as I0. destruct I. constructor; cbn [todo st hs elog].
   - lia.
-  - intros j c1 [[= <- <-]|H]; rewrite LEN; eauto.
+  - intros j c1 [E|H]; rewrite LEN; [inversion E; subst; lia|eauto].
   - simpl. constructor; auto.
   - intros sp' H. simpl. intros [E|K].
     + inversion TN as [|? ? NI _]. apply NI. rewrite E. now apply in_map.
     + apply (i_fresh0 sp'); auto. rewrite T. now right.
   - now inversion TN.
   - intros sp' H. apply i_class0. rewrite T. now right.
-  - intros j k c1 [[= <- <-]|Hj] [[= <- <-]|Hk] N; auto; try congruence. eauto.
-  - intros j c1 [[= <- <-]|Hj] N; [congruence|]. rewrite CRO by auto. eauto.
-  - intros j c1 [[= <- <-]|Hj]; cbn [own_view]; rewrite CONT; [congruence|eauto].
+  - intros j k c1 [Ej|Hj] [Ek|Hk] N; try congruence. eauto.
+  - intros j c1 [Ej|Hj] N; [congruence|]. rewrite CRO by auto. eauto.
+  - intros j c1 [Ej|Hj]; cbn [own_view]; rewrite CONT.
+    + inversion Ej; subst j c1. congruence.
+    + eauto.
   - intros _. now rewrite CONT.
   - right. destruct SH as [R' [E C]]. exists R'. split; auto.
-  - intros j k N [[= <-]|Hj] [[= <-]|Hk]; try congruence.
+  - intros j k N [Ej|Hj] [Ek|Hk]; try congruence.
     + rewrite SAME by eauto. apply SHR. eauto.
     + rewrite SAME by eauto. apply SHR. eauto.
     + rewrite SAME by eauto. eauto.
-  - intros j [[= <-]|Hj] Mj.
-    + assert (MS : is_mut_step sp = true) by (rewrite <- i_class0; auto).
+  - intros j [Ej|Hj] Mj.
+    + inversion Ej; subst j.
+      assert (MS : is_mut_step sp = true) by congruence.
       destruct (MUT MS) as (A & B & C). repeat split; auto.
-      intros k [[= <-]|Hk]; auto. exfalso.
+      intros k [Ek|Hk]; [congruence|]. exfalso.
       destruct SHR as [_ F]; eauto. congruence.
     + exfalso. destruct (i_mutorig0 j Hj Mj) as (_ & F & _). congruence.
   - intros j w [H|H]; [discriminate|]. simpl. right. eauto.
-  - intros j c1 ro seen [[= <- <- <- <-]|H].
-    + repeat split; auto.
-    + destruct (i_calls0 _ _ _ _ H) as (A & B & C). repeat split; auto.
+  - intros j c1 ro seen [E|H].
+    + inversion E; subst j c1 ro seen. repeat split; auto. now left.
+    + destruct (i_calls0 _ _ _ _ H) as (A & B & C). repeat split; auto. { now right. }
       rewrite (CROH _ _ B). auto.
-  - intros j w c1 [H|H]; [discriminate|]. intros [[= <- <-]|Hj].
-    + exfalso. apply FR. eauto.
+  - intros j w c1 [H|H]; [discriminate|]. intros [E|Hj].
+    + inversion E; subst j c1. exfalso. apply FR. eauto.
     + rewrite (CROH _ _ Hj). eauto.
   - intros j w [H|H]; [discriminate|eauto].
 Qed.
